@@ -548,6 +548,12 @@ def run(eng, ctx, layout_only=False):
                 if c == sc_["test"]:
                     continue
                 subj = _nonzero_subject(c) if pol else None
+                if subj is not None and subj in own[fld]:
+                    continue  # true whenever this mask has a set bit
+                if subj is None or subj not in others_all:
+                    # some other condition stands in front of the scan: whether it can fail for a message with set bits is not decided here
+                    undecided("C09.D2", mb.qualname, f"scan of {fld} runs whatever else holds", detail=f"the recording step of the scan is conditional on `{show(c)[:60]}` ({'holds' if pol else 'fails'}): a condition this rule cannot judge", **eng.loc(mb, e.node))
+                    continue
                 if subj is not None and subj in others_all - own[fld]:
                     real_ctx.bad("C09.D2", mb.qualname, f"scan of {fld} runs whatever the other masks hold", expected=f"labels recorded for every set bit of {fld}",
                                  found=f"the scan is skipped unless `{show(c)[:50]}`: a message with set bits in {fld} and {subj} = 0 gets no labels, although the groups repeated by this mask's count are still decoded", **eng.loc(mb, e.node))
